@@ -57,6 +57,12 @@ func (c *FnCtx) checkCallSiteAsserts(frame *Frame, st *State, in ssa.Instruction
 			c.errs = append(c.errs, fmt.Sprintf("%s:%d: assert %s: %v", a.File, a.Line, a.Label, err))
 			continue
 		}
+		if a.Kind == "lemma_at" {
+			st.assume(t)
+			c.note("assumed lemma " + a.Label + " at " + a.At + " (" + a.Text + "): a consequence of the facts in force there that the solvers cannot derive; not checked")
+			c.assertsSeen[a.Label] = true
+			continue
+		}
 		c.addOblig(st, fmt.Sprintf("callsite:%s#%d:%s", short, ord, a.Label), "callsite", t, a.Text, in.Pos())
 		c.assertsSeen[a.Label] = true
 	}
